@@ -76,7 +76,7 @@ def odd_shot(pbc, rng):
 
 def correspondence(chk, drv):
     pbc = import_repo()
-    n = 50 if chk.tier == 'quick' else 3000
+    n = 40 if chk.tier == 'quick' else 3000
     from vlib.common import Corr
     from collections import Counter
     rng = chk.rng
@@ -87,7 +87,7 @@ def correspondence(chk, drv):
         cfg = limit_cfg(rng)
         calc = pbc.Calculator(_config=cfg)
         shot = odd_shot(pbc, rng)
-        R = rng.choice([300.0, 1500.0, 6000.0, 30000.0])
+        R = rng.choice([300.0, 1500.0, 6000.0])
         step = rng.choice([R / 10, 100.0, R])
         extra = rng.random() < 0.4
         ans = sg.py_fire(pbc, calc, shot, R, step, extra, 0.0)
@@ -114,7 +114,7 @@ def search(chk, broken):
     pbc = import_repo()
     U = pbc.Unit
     rng = chk.rng
-    n = 40 if (chk.tier == 'quick' and not broken) else 2000
+    n = 25 if (chk.tier == 'quick' and not broken) else 2000
     evals = 0
     signal.signal(signal.SIGALRM, _alarm)
     for _ in range(n):
